@@ -3,6 +3,7 @@ from __future__ import annotations
 
 import hashlib
 import json
+import os
 import time
 from collections import Counter
 
@@ -837,3 +838,124 @@ LAWS.append(
         {"quick": 1200, "thorough": 15000}, "constructors without copy=False do not alias the array / tensor / module constant they are built from: writing into the new object leaves the source unchanged", shard=300,
         mandatory=("already-normalised:normalize_matrix", "absolute_conic->Conic"))
 )
+
+
+# ------------------------------------------------------------------------------------------- the same query in a fresh process
+def fresh_drive(tier, seed, n_examples):
+    """A long history of registry queries in this process (every operation several times, other parameter vectors in between);
+    then a sample of the queries is asked once more here and once as the very first query of a new interpreter
+    (python -m vp.fresh_eval): same answer. This is the 'asked first or after any sequence of other queries' clause with
+    the first-asked answer taken literally; it sees state that leaks between calls through module-level caches, scratch
+    buffers and iterators, which a re-asked query inside one process cannot see once the state has settled."""
+    import base64
+    import pickle
+    import random as _random  # only to derive a deterministic schedule from the seed (no library input depends on it)
+    import subprocess
+    import sys as _sys
+
+    from ..fresh_eval import plain
+
+    rnd = _random.Random(seed)
+    res = {"evaluations": 0, "skipped": 0, "nt": set(), "nt_extra": 0, "labels": Counter(), "samples": [], "fails": [], "extra": {"history_calls": 0, "fresh_processes": 0}}
+    n_fresh = max(2, n_examples)
+    history = []
+    vecs = [[rnd.randint(-6, 6) for _ in range(24)] for _ in range(6)]
+    for d in (2, 3):
+        ops = O.ops_for(d)
+        for rep in range(3):
+            for o in ops:
+                history.append((d, o.name, vecs[(rep * 2 + (d - 2)) % len(vecs)]))
+    rnd.shuffle(history)
+    # the queries that are compared: this shard's slice of all (dimension, operation) pairs, so that the shards of one run cover
+    # the whole registry
+    from ..runner import _CUR
+
+    pairs = sorted({(d, name) for d, name, _ in history})
+    k = int(_CUR.get("shard") or 0)
+    mine = [pairs[(k * n_fresh + i) % len(pairs)] for i in range(min(n_fresh, len(pairs)))]
+    last_v = {}
+    for d, name, v in history:
+        last_v[(d, name)] = v
+    here = os.path.dirname(os.path.dirname(os.path.dirname(os.path.abspath(__file__))))
+    pools = {}
+
+    def evaluate(d, name, v):
+        key = (d, tuple(v))
+        if key not in pools:
+            try:
+                pools[key] = O.pool_for(d, v)
+            except Skip:
+                pools[key] = None
+        pool = pools[key]
+        if pool is None:
+            return ("skip", None)
+        op = OPMAP2[(name, d)]
+        try:
+            return ("ok", plain(op.fn(*[pool[a] for a in op.args])))
+        except Skip:
+            return ("skip", None)
+        except Exception as e:  # noqa: BLE001
+            return ("exc", type(e).__name__)
+
+    for d, name, v in history:
+        evaluate(d, name, v)
+        res["extra"]["history_calls"] += 1
+    sample = [(d, name, last_v[(d, name)]) for d, name in mine]
+
+    def same_plain(a, b):
+        if a[0] != b[0]:
+            return False
+        if a[0] == "tensor":
+            return a[1] == b[1] and same_plain(("ndarray", a[2]), ("ndarray", b[2]))
+        if a[0] == "ndarray":
+            x, y = a[1], b[1]
+            if x.shape != y.shape:
+                return False
+            if x.dtype.kind in "fc" or y.dtype.kind in "fc":
+                return bool(np.allclose(x, y, rtol=1e-9, atol=1e-12, equal_nan=True))
+            return bool(np.array_equal(x, y))
+        if a[0] == "list":
+            return len(a[1]) == len(b[1]) and all(same_plain(x, y) for x, y in zip(a[1], b[1]))
+        if a[0] == "scalar" and isinstance(a[1], (float, complex)) and isinstance(b[1], (float, complex)):
+            return bool(np.isclose(a[1], b[1], rtol=1e-9, atol=1e-12, equal_nan=True))
+        return a[1] == b[1]
+
+    for d, name, v in sample:
+        late = evaluate(d, name, v)
+        env = dict(os.environ, PYTHONHASHSEED="0", OMP_NUM_THREADS="1", OPENBLAS_NUM_THREADS="1", MKL_NUM_THREADS="1", PYTHONDONTWRITEBYTECODE="1")
+        pr = subprocess.run([_sys.executable, "-m", "vp.fresh_eval", str(d), name, json.dumps(v)], cwd=here, env=env, capture_output=True, text=True, timeout=300)
+        line = next((ln for ln in pr.stdout.splitlines() if ln.startswith("RESULT:")), None)
+        if line is None:
+            raise HarnessError(f"fresh interpreter gave no result: {pr.stderr[-300:]}")
+        first = pickle.loads(base64.b64decode(line[len("RESULT:"):]))
+        res["extra"]["fresh_processes"] += 1
+        case = {"d": d, "op": name, "v": v, "history": len(history)}
+        if late[0] == "skip" or first[0] == "skip":
+            res["skipped"] += 1
+            continue
+        res["evaluations"] += 1
+        res["nt"].add(case_hash(case))
+        res["labels"][f"d{d}"] += 1
+        if len(res["samples"]) < 4:
+            res["samples"].append(case)
+        ok = late[0] == first[0] and (late[1] == first[1] if late[0] == "exc" else same_plain(late[1], first[1]))
+        if not ok:
+            res["fails"].append((Fail("MISMATCH", f"fresh-process:{name}/d{d}", "").sig("fresh_process_agreement"), case, f"after {len(history)} calls: {str(late)[:150]} / asked first: {str(first)[:150]}"))
+    res["labels"] = dict(res["labels"])
+    return res
+
+
+OPMAP2 = {(o.name, d): o for o in O.OPS for d in o.dims}
+
+
+def replay_fresh(case):
+    r = fresh_drive("quick", 1, 2)  # the history is part of the failure: re-run the whole schedule
+    return [Fail("MISMATCH", sig.split("|", 2)[2], det) for sig, c, det in r["fails"]]
+
+
+LAWS.append(
+    Law("fresh_process_agreement", None, None, drive=fresh_drive, budget={"quick": 352, "thorough": 704}, shard=22,
+        rule="after ~1000 registry queries in one process, sampled queries give the same answer as when they are the first query of a new interpreter")
+)
+
+REPLAY["fresh_process_agreement"] = replay_fresh
